@@ -32,6 +32,8 @@ def graphs(n: int) -> Iterator[tuple]:
         c: list[tuple] = [("obj",)]
         c += [("imp", j) for j in range(n)] + [("imp", "missing")]
         c += [("linked", j) for j in range(n) if j != i]
+        if n <= 3:
+            c += [("through", j) for j in range(n)]  # `from p.xj import y as xi`: the target path goes *through* another name (or through itself)
         choices.append(c)
     for g in itertools.product(*choices):
         # a linked alias needs its target to exist when it is created: links may only point at objects, imports, or earlier links
@@ -48,6 +50,8 @@ def reaches_object(g: tuple, i: int) -> bool:
         d = g[i]
         if d[0] == "obj":
             return True
+        if d[0] == "through":
+            return False  # p.xj.y: objects of this universe have no member y, and an alias on the way leads to one of them or nowhere
         i = d[1]
 
 
@@ -56,6 +60,8 @@ def fmt(g: tuple) -> str:
         if d[0] == "obj":
             return f"x{i} = 1"
         t = "missing.y" if d[1] == "missing" else f"p.x{d[1]}"
+        if d[0] == "through":
+            return f"x{i} -> {t}.y"
         return f"x{i} -> {t}" if d[0] == "imp" else f"x{i} => {t} (created linked)"
     return "; ".join(one(i, d) for i, d in enumerate(g))
 
@@ -80,10 +86,12 @@ class Table:
         members: list[Obj | None] = [None] * len(g)
         for phase in ("obj", "imp", "linked"):
             for i, d in enumerate(g):
-                if d[0] != phase:
+                if (d[0] if d[0] != "through" else "imp") != phase:
                     continue
                 if phase == "obj":
                     m = self.new("Attribute", f"x{i}")
+                elif d[0] == "through":
+                    m = self.new("Alias", f"x{i}", f"p.x{d[1]}.y")
                 elif phase == "imp":
                     m = self.new("Alias", f"x{i}", "missing.y" if d[1] == "missing" else f"p.x{d[1]}")
                 else:
@@ -129,7 +137,7 @@ class Table:
                         if isinstance(ft, Obj) and ft.cls is not None and ft.cls.name == "Alias":
                             return f"x{i}.final_target is an alias"
                     else:
-                        if g[i][0] == "imp" and a.attrs.get("_target") is not None and not was:
+                        if g[i][0] in ("imp", "through") and a.attrs.get("_target") is not None and not was:
                             return (f"x{i}.resolve_target() raises {outcome}, yet x{i} is left resolved (first link stored, rest of the chain "
                                     "unresolvable): the chain is partially resolved")
                         if reaches_object(g, i):
@@ -256,6 +264,19 @@ class PackageTable:
             state2 = {p: id(a.attrs.get("_target")) for p, a in self.aliases(ms)}
             if set(un1) != set(un2) or state1 != state2:
                 return f"resolving a second time is not a no-op: unresolved {sorted(un1)} then {sorted(un2)}"
+            # what resolve_aliases hands back: the paths of the imports that could not be resolved because something is missing
+            stage = "checking the returned set"
+            dangling = set()
+            for a in keep:
+                if a.attrs.get("_target") is None and not a.attrs["name"].endswith("/*") and a.attrs.get("_parent") is not None \
+                        and a.attrs["_parent"].attrs["members"].get(a.attrs["name"]) is a:
+                    try:
+                        it.call(self.prog.lookup_method(a.cls, "resolve_target")[0], a)
+                    except Raised as r:
+                        if r.exc == "AliasResolutionError":
+                            dangling.add(it.getattr(a, "path"))
+            if set(un1) != dangling:
+                return f"resolve_aliases returns the unresolved imports {sorted(un1)}; the imports that cannot be resolved are {sorted(dangling)}"
             stage = "reading the aliases"
             for path, a in self.aliases(ms):
                 if a.attrs["name"].endswith("/*"):
